@@ -7,6 +7,7 @@ const INPUTS: &[&str] = &[
     "", "a", "ab", "a b", "a/x b/y", "a/x/y b", "\\", "a\\", "\\\\", "\\ ", " a", "a ", "a  b", "a\0", "\0",
     "a|b", "a-b", "a\tb", "a b c", "a/x|b/y", "a/x-b", "a/", "/", "a//", "a/ b", "あ/名 い", "a|b|", "a|", "ab|c", "a/x|b/y/z|c",
     "a\\/b", "a/x\\ y", "\\a", "a/\\", "a|b/x\\", "/|/", "a-b-c/t", "cd", "漢字かな", "a\\\0",
+    "ab/x\\/y cd/z", "a/x\\ y b/z", "a/\\\\ b", "a/x\\", "a|b/x\\|y|c/z", "a/x\\-y-b", "a/\\/|b", "a/x/ b//y", "a//|b/ /", "a/x\0|b", "火/名詞\\/固有|星",
 ];
 
 #[derive(Clone, Copy, Debug, PartialEq)]
@@ -135,6 +136,12 @@ pub fn search() -> Option<String> {
             }
         }
     }
+    // content: each constructor against the executable format specification
+    for &k in &KINDS {
+        for i in INPUTS {
+            if let Some(d) = content(k, i) { return Some(d); }
+        }
+    }
     // constructors alone must not panic either
     for &k in &KINDS {
         for i in INPUTS {
@@ -149,6 +156,22 @@ pub fn search() -> Option<String> {
     None
 }
 
+fn content(k: Kind, i: &str) -> Option<String> {
+    let want = match k { Kind::Raw => return None, Kind::Tok => crate::fmt::ref_tokenized(i), Kind::Part => crate::fmt::ref_partial(i) };
+    let i2 = i.to_string();
+    let got = catch_unwind(move || fresh(k, &i2).map(|s| crate::fmt::Parsed {
+        text: s.as_raw_text().to_string(),
+        bounds: s.boundaries().iter().map(|b| *b as u8).collect(),
+        n_tags: s.n_tags(),
+        tags: s.tags().iter().map(|t| t.as_ref().map(|x| x.to_string())).collect(),
+    }));
+    match got {
+        Err(_) => Some(describe(k, i, None, k, i, "constructor panics")),
+        Ok(g) if g != want => Some(describe(k, i, None, k, i, &format!("parsed content differs from the format: expected {:?} actual {:?}", want, g))),
+        _ => None,
+    }
+}
+
 fn kind_of(s: &str) -> Kind {
     match s {
         "Raw" => Kind::Raw,
@@ -160,6 +183,7 @@ fn kind_of(s: &str) -> Kind {
 pub fn replay(arg: &str) -> Option<String> {
     let p: Vec<&str> = arg.split('\t').collect();
     let reset = p[2].parse::<i64>().ok().and_then(|x| if x < 0 { None } else { Some(x as usize) });
+    if let Some(d) = content(kind_of(p[3]), p[4]) { return Some(d); }
     case(kind_of(p[0]), p[1], reset, kind_of(p[3]), p[4]).map(|w| describe(kind_of(p[0]), p[1], reset, kind_of(p[3]), p[4], &w))
 }
 
